@@ -5,6 +5,7 @@ import (
 	"net"
 	"sync"
 
+	tq "github.com/facebookincubator/tacquito"
 	"verif/harness/cfggen"
 	"verif/harness/model"
 	"verif/harness/refsrv"
@@ -58,6 +59,7 @@ type refOpts struct {
 	keychain refsrv.Keychain
 	recover  bool // swallow handler panics (recorded) instead of dying
 	quiet    bool // use the lock-free no-op logger
+	proxy    bool // run the server with SetUseProxy(true)
 }
 
 func startRef(cfg cfggen.Config, o refOpts) (*refEnv, error) {
@@ -79,7 +81,7 @@ func startRefDoc(doc []byte, o refOpts) (*refEnv, error) {
 		return nil, err
 	}
 	e.stack = st
-	e.srv = startServer(lg, e.rec.SP(st.Loader))
+	e.srv = startServer(lg, e.rec.SP(st.Loader), tq.SetUseProxy(o.proxy))
 	e.sink.log = func() *transport.Log { return e.srv.log }
 	return e, nil
 }
